@@ -168,8 +168,8 @@ def r1_optional_fields(R) -> None:
                         where=fi.where)
     for fld in optional:
         if fld not in per_field:
-            R.violation(q, f'optional-restored:{fld}', f'Symbol.{fld} is Optional but dataframe_to_symbols has no not-a-value -> None conversion for it: pandas stores None as NaN, '
-                        f'so the round trip returns {fld}=nan', where=fi.where)
+            R.check(False, q, f'optional-restored:{fld}', '', f'Symbol.{fld} is Optional but dataframe_to_symbols has no not-a-value -> None conversion for it: pandas stores None as NaN, '
+                    f'so the round trip returns {fld}=nan', where=fi.where)
             continue
         R.check(fld in restored, q, f'optional-restored:{fld}', f'Symbol.{fld} (Optional): a missing value comes back as None',
                 f'Symbol.{fld} is Optional but what dataframe_to_symbols stores for it (`{text(per_field[fld])[:70]}`) does not turn a missing value (NaN'
